@@ -1,7 +1,7 @@
 (* C15 — property theorems only (statements pinned in Pins_C15.v). *)
 From Coq Require Import List Arith Lia Bool.
 Import ListNotations.
-From SV Require Import c15.Conc c15.Model_C15 c15.Proofs_C15.
+From SV Require Import c15.Conc c15.Model_C15 c15.Proofs_C15 c15.Proofs_C15_Excl.
 
 (* Serialisation (repaired lock discipline): for every number of threads, every script and every schedule,
    at most one thread is inside a stop-the-world section, and it owns the heap mutex. *)
@@ -43,3 +43,30 @@ Theorem C15_global_visible_refuted_spawn_window :
   (forall s x, pc (th w s) <> Stw x) /\ pc (th w 2) = Done /\ env_gen w = 1 /\
   pc (th w 1) = Exec /\ seen (th w 1) = 0.
 Proof. exact spawn_window_stale. Qed.
+
+(* Exclusive access OUTSIDE the known windows.  known_window w (decidable): some thread is between its paused-load
+   (which returned false) and ctx.store(None) while its flag has since been set, or some thread is running but not yet
+   registered while a stop-the-world section is in progress.  For every number of threads, every script (spawns
+   included) and every schedule none of whose worlds (from the initial one to the last) is in a known window: while
+   a stopper reads / replaces thread k's state, k is parked or inside a primitive with its pause flag set. *)
+Theorem C15_mutual_exclusion_outside_known : forall progs sched,
+  window_free cfg_fixed sched (init progs) = true -> Excl15 (run cfg_fixed sched (init progs)).
+Proof. exact mutual_exclusion_outside_known_lemma. Qed.
+
+(* ... and from the end of the stopper's first pass until it resumes them, ALL registered unfinished threads are
+   parked or inside a primitive: in particular, between the global update itself (SThunk) and the moment a thread
+   has been handed the new table in the second pass, that thread executes no instruction. *)
+Theorem C15_all_stopped_after_first_pass : forall progs sched h s t,
+  window_free cfg_fixed sched (init progs) = true ->
+  let w := run cfg_fixed sched (init progs) in
+  pc (th w h) = Stw s -> covered s t = true -> t <> h -> reg (th w t) = true -> is_done (pc (th w t)) = false ->
+  safe_to_access (th w t) = true.
+Proof. exact all_stopped_after_first_pass_lemma. Qed.
+
+Example C15_window_free_nonvacuous :
+  window_free cfg_fixed wf_sched (init wf_progs) = true /\
+  pc (th (run cfg_fixed (firstn 22 wf_sched) (init wf_progs)) 0) = Stw (SAccess 1 1) /\
+  pc (th (run cfg_fixed (firstn 28 wf_sched) (init wf_progs)) 0) = Stw (SAccess 2 1) /\
+  window_free cfg_fixed (firstn 28 wf_sched) (init wf_progs) = true /\
+  env_gen (run cfg_fixed wf_sched (init wf_progs)) = 1.
+Proof. exact window_free_example. Qed.
